@@ -149,9 +149,13 @@ func genFid() *rapid.Generator[fidSpec] {
 
 // spell returns the file id in one of the spellings a client may send.
 func spell(t *rapid.T, f fidSpec, label string) (asString string, asStruct *filer_pb.FileId, how string) {
-	switch rapid.IntRange(0, 4).Draw(t, label) {
+	switch rapid.IntRange(0, 6).Draw(t, label) {
 	case 0:
 		return "", &filer_pb.FileId{VolumeId: f.vid, FileKey: f.key, Cookie: f.cookie}, "struct"
+	case 5: // both forms, consistent: what AfterEntryDeserialization hands to clients, which send it back
+		return f.canonical(), &filer_pb.FileId{VolumeId: f.vid, FileKey: f.key, Cookie: f.cookie}, "both-same"
+	case 6: // both forms, the struct is stale: the string is what the client wrote (BeforeEntrySerialization lets it win)
+		return f.canonical(), &filer_pb.FileId{VolumeId: f.vid + 1, FileKey: f.key ^ 0x55, Cookie: ^f.cookie}, "both-differ"
 	case 1:
 		return fmt.Sprintf("%d,%016x%08x", f.vid, f.key, f.cookie), nil, "leading-zeros"
 	case 2:
@@ -579,6 +583,52 @@ func TestPropStoreRoundTrip(t *testing.T) {
 		verify(t, s, kind, "after insert", want1)
 
 		e2, i2 := genEntry(t, fp)
+		// the update often re-sends chunk objects the client got from the filer (or still holds from
+		// the insert), with some of them pointed at new file ids and new chunks appended
+		updateMode := rapid.SampledFrom([]string{"fresh-chunks", "reuse-readback-chunks", "reuse-readback-chunks", "reuse-inserted-chunks"}).Draw(t, "updateMode")
+		if updateMode != "fresh-chunks" {
+			var src []*filer_pb.FileChunk
+			if updateMode == "reuse-readback-chunks" {
+				back, err := s.FindEntry(ctx, fp)
+				if err != nil {
+					t.Fatalf("[%s] FindEntry(%s) before update: %v", kind, fp, err)
+				}
+				src = back.Chunks // FileId string and Fid struct both set
+			} else {
+				src = e1.Chunks // mutated in place by InsertEntry: Fid struct set, FileId string cleared
+			}
+			fresh := e2.Chunks
+			if len(fresh) > 2 {
+				fresh = fresh[:2]
+			}
+			var actions []int
+			for i := 0; i < 8 && i < len(src); i++ {
+				actions = append(actions, rapid.IntRange(0, 5).Draw(t, "chunkAction"))
+			}
+			var chunks []*filer_pb.FileChunk
+			for i, c := range src {
+				f := fidSpec{vid: uint32(100 + i%9), key: uint64(i+1)*0x9E3779B1 + uint64(no), cookie: uint32(i)*2246822519 + 1}
+				switch actions[i%len(actions)] {
+				case 0, 1: // rewritten to a new location, id given as string; the struct still shows the old place
+					c.FileId = f.canonical()
+					i2.spellings["update-new-string-stale-struct"] = true
+				case 2: // rewritten, id given as struct only
+					c.FileId, c.Fid = "", &filer_pb.FileId{VolumeId: f.vid, FileKey: f.key, Cookie: f.cookie}
+					i2.spellings["update-new-struct"] = true
+				case 3: // source id rewritten the same way
+					c.SourceFileId = f.canonical()
+					i2.spellings["update-new-source-string"] = true
+					i2.srcOrCipher = true
+				case 4: // dropped
+					continue
+				default: // unchanged
+				}
+				chunks = append(chunks, c)
+			}
+			e2.Chunks = append(chunks, fresh...)
+			i2.nChunks = len(e2.Chunks)
+			i2.spellings[updateMode] = true
+		}
 		want2 := expected(e2)
 		d2 := describe(e2)
 		useInsert := rapid.IntRange(0, 3).Draw(t, "overwriteWithInsert") == 0
